@@ -20,24 +20,41 @@ def from_us(n):
 
 
 class DstEnv(PyscriptEnv):
-    """PyscriptEnv whose dt_now() is the naive local time of (base_utc + virtual seconds) in the configured zone."""
+    """PyscriptEnv whose dt_now() is the naive local time, in the configured zone, of a wall clock that can be perturbed
+    relative to the event loop's (monotonic, virtual) clock: wall = base + (mono - base) * (1 - ppm/10^6) + steps, all in
+    integer microseconds (the same formula as rc_wall in coq/Time/NextCheck.v).  steps = [[elapsed_us, delta_us], ...]:
+    at that monotonic time the wall clock is set by delta (negative = back), as NTP/an administrator does."""
 
-    def __init__(self, base_utc_us, tz, **kw):
+    def __init__(self, base_utc_us, tz, ppm=0, steps=(), **kw):
         super().__init__(time_zone=tz, **kw)
         self._zone = ZoneInfo(tz)
-        self._base_utc = from_us(base_utc_us).replace(tzinfo=dt.timezone.utc)
-        self._last_utc = None
+        self._base_us = base_utc_us
+        self._ppm = ppm
+        self._steps = [(base_utc_us + a, d) for a, d in steps]
+        self._last = None
+
+    def mono_us(self):
+        return self._base_us + round((asyncio.get_running_loop().time() - START) * 1e6)
 
     def utc_now_us(self):
-        return to_us(self._base_utc.replace(tzinfo=None)) + round((asyncio.get_running_loop().time() - START) * 1e6)
+        return self.mono_us()
+
+    def wall_us(self, mono):
+        off = sum(d for a, d in self._steps if a <= mono)
+        return self._base_us + (mono - self._base_us) * (1000000 - self._ppm) // 1000000 + off
+
+    def abs_steps(self):
+        return [[a, d] for a, d in self._steps]
 
     def dt_now(self):
-        val = self._base_utc + dt.timedelta(seconds=asyncio.get_running_loop().time() - START)
-        last = self._last_utc
-        if last is not None and val <= last:
-            val = last + US          # a real clock never returns the same microsecond twice to sequential callers
-        self._last_utc = val
-        return val.astimezone(self._zone).replace(tzinfo=None)
+        mono = self.mono_us()
+        nsteps = sum(1 for a, _d in self._steps if a <= mono)
+        val = self.wall_us(mono)
+        last = self._last
+        if last is not None and last[1] == nsteps and val <= last[0]:
+            val = last[0] + 1        # a real clock never returns the same microsecond twice to sequential callers
+        self._last = (val, nsteps)
+        return from_us(val).replace(tzinfo=dt.timezone.utc).astimezone(self._zone).replace(tzinfo=None)
 
 
 def script_for(case):
@@ -61,23 +78,26 @@ async def scenario(case, tz):
     from vh.workers.c06_time import SunRecorder
 
     calls = []
+    holder = {}
     orig = TrigTime.__dict__["timer_trigger_next"]
     rec = SunRecorder(trigger.sun)
 
     async def wrapped(cls, time_spec, now, startup_time):
+        mono = holder["env"].mono_us()
         try:
             res = await orig.__func__(cls, time_spec, now, startup_time)
         except Exception as exc:  # pylint: disable=broad-except
-            calls.append({"now": to_us(now), "su": to_us(startup_time), "kind": "exc", "exc": repr(exc), "t": None, "adj": None})
+            calls.append({"mono": holder["env"].mono_us(), "now": to_us(now), "su": to_us(startup_time), "kind": "exc", "exc": repr(exc), "t": None, "adj": None})
             raise
-        calls.append({"now": to_us(now), "su": to_us(startup_time), "kind": "res",
+        calls.append({"mono": mono, "now": to_us(now), "su": to_us(startup_time), "kind": "res",
                       "t": None if res[0] is None else to_us(res[0]), "adj": None if res[1] is None else to_us(res[1])})
         return res
 
     TrigTime.timer_trigger_next = classmethod(wrapped)
     trigger.sun = rec
     try:
-        env = DstEnv(case["base_utc"], tz, files={}, legacy=case["legacy"])
+        env = DstEnv(case["base_utc"], tz, ppm=case.get("ppm", 0), steps=case.get("steps", ()), files={}, legacy=case["legacy"])
+        holder["env"] = env
         async with env:
             env.hass.config.latitude, env.hass.config.longitude = NYC
             await env.advance(case.get("lead", 1.0))
@@ -103,6 +123,8 @@ async def scenario(case, tz):
                 runs.append([base + round(vt * 1e6), k, data.get("ty")])
             errs = [r for r in env.log.records if r[1] in ("ERROR", "WARNING")]
             return {"def_utc": def_utc, "remove_utc": rm_utc, "runs": runs, "calls": calls, "sun": rec.table,
+                    "base": case["base_utc"], "ppm": case.get("ppm", 0), "steps": env.abs_steps(),
+                    "walls": [env.wall_us(u) for u, _k, _t in runs],
                     "errors": [list(e) for e in errs[:5]]}
     finally:
         TrigTime.timer_trigger_next = orig
